@@ -10,7 +10,7 @@ python3 tools/gen_conv.py || echo "setup: source translator refused the current 
 python3 tools/gen_peak.py || echo "setup: source translator refused the current peak.rs (the differential tie remains)"
 python3 tools/gen_formula.py || echo "setup: source translator refused the current formula.rs (the differential tie remains)"
 python3 tools/gen_espec.py || echo "setup: source translator refused the current element_specification.rs (the differential tie remains)"
-for g in gen_comp gen_render gen_cbind gen_brain; do python3 tools/$g.py >/dev/null || echo "setup: $g refused the current source (the differential tie remains)"; done
+for g in gen_comp gen_render gen_cbind gen_brain gen_element gen_props; do python3 tools/$g.py >/dev/null || echo "setup: $g refused the current source (the differential tie remains)"; done
 (cd harness && RUSTFLAGS="--cfg chemical_elements_verif" cargo build --release --offline -q)
 (cd harness_c && RUSTFLAGS="--cfg chemical_elements_verif" cargo build --release --offline -q)
 # -k: a proof that no longer checks must not stop the others from being built; each check
